@@ -3,7 +3,8 @@
 use super::*;
 use tendermint::block::CommitSig;
 
-fn multi_validator_header(n: usize) -> (ExtendedHeader, Vec<SigningKey>) {
+fn multi_validator_header(n: usize) -> (ExtendedHeader, Vec<SigningKey>) { multi_validator_header_pow(n, 100) }
+fn multi_validator_header_pow(n: usize, power: u32) -> (ExtendedHeader, Vec<SigningKey>) {
     // start from a generated single-validator header and rebuild validator set + commit for n equal validators
     let mut generator = ExtendedHeaderGenerator::new();
     let mut header = generator.next();
@@ -15,7 +16,7 @@ fn multi_validator_header(n: usize) -> (ExtendedHeader, Vec<SigningKey>) {
             tendermint::validator::Info {
                 address: tendermint::account::Id::from(pk),
                 pub_key: pk,
-                power: 100_u32.into(),
+                power: power.into(),
                 name: None,
                 proposer_priority: 0_i64.into(),
             }
@@ -199,4 +200,92 @@ mod verif_shwap {
 }
 mod verif_merkle {
     include!(concat!(env!("LUMINA_VERIF_DIR"), "/native/types/merkle.rs"));
+}
+
+// ---------------------------------------------------------------------------------------------
+// Witness finder / bounded stand-in for C01, C02, C03: validator sets of 1..=7 equal-power validators with every
+// subset-prefix of signatures present; single-field mutations of an honest header; links between generated headers.
+// (The two known findings D14 / D15 - trailing signatures and validator addresses - are excluded by construction: the
+// mutations here touch only entries that are needed to reach the threshold, and never the address.)
+// ---------------------------------------------------------------------------------------------
+#[test]
+fn verif_enum_header_validation() {
+    let mut cases = 0u64;
+    // C03: with n equal validators and the first k signatures present (the rest absent), the header validates iff 3k > 2n
+    for n in 1usize..=7 {
+        let (header, _) = multi_validator_header(n);
+        header.validate().expect("honest header validates");
+        for k in 0..=n {
+            cases += 1;
+            let mut h = header.clone();
+            for i in k..n { h.commit.signatures[i] = CommitSig::BlockIdFlagAbsent; }
+            let ok = h.validate().is_ok();
+            let want = 3 * k > 2 * n;
+            if ok != want { println!("WITNESS C03: {n} validators of equal power, {k} signatures present: validate() accepted={ok}, the 2/3 rule says {want}"); panic!("witness"); }
+        }
+        // a needed signature corrupted -> rejected (entry 0 is always needed when the header validates)
+        cases += 1;
+        let mut h = header.clone();
+        if let CommitSig::BlockIdFlagCommit { signature, .. } = &mut h.commit.signatures[0] {
+            let mut raw = signature.as_ref().unwrap().as_bytes().to_vec(); raw[7] ^= 0x10; *signature = Some(Signature::new(raw).unwrap().unwrap());
+        }
+        if h.validate().is_ok() { println!("WITNESS C01: signature of commit entry 0 corrupted ({n} validators) and validate() still accepts"); panic!("witness"); }
+    }
+    // C03 at fine granularity: validators of power 1, where floor(2*total/3) differs from 2*floor(total/3)
+    for n in [5usize, 8, 11, 14] {
+        let (header, _) = multi_validator_header_pow(n, 1);
+        for k in 0..=n {
+            cases += 1;
+            let mut h = header.clone();
+            for i in k..n { h.commit.signatures[i] = CommitSig::BlockIdFlagAbsent; }
+            let ok = h.validate().is_ok();
+            let want = 3 * k > 2 * n;
+            if ok != want { println!("WITNESS C03: {n} validators of power 1, {k} signatures present: validate() accepted={ok}, the 2/3 rule says {want}"); panic!("witness"); }
+        }
+    }
+    // C01: single-field mutations of an honest 3-validator header
+    let (header, _) = multi_validator_header(3);
+    let muts: Vec<(&str, Box<dyn Fn(&mut ExtendedHeader)>)> = vec![
+        ("header.height + 1", Box::new(|h| { h.header.height = (h.header.height.value() + 1).try_into().unwrap(); })),
+        ("header.chain_id", Box::new(|h| { h.header.chain_id = "other-chain".try_into().unwrap(); })),
+        ("header.data_hash", Box::new(|h| { h.header.data_hash = Some(tendermint::Hash::Sha256([9u8; 32])); })),
+        ("header.app_hash", Box::new(|h| { h.header.app_hash = vec![1, 2, 3].try_into().unwrap(); })),
+        ("header.validators_hash", Box::new(|h| { h.header.validators_hash = tendermint::Hash::Sha256([4u8; 32]); })),
+        ("header.time + 1s", Box::new(|h| { h.header.time = (h.header.time + std::time::Duration::from_secs(1)).unwrap(); })),
+        ("commit.height", Box::new(|h| { h.commit.height = (h.commit.height.value() + 1).try_into().unwrap(); })),
+        ("commit.round", Box::new(|h| { h.commit.round = 7u16.into(); })),
+        ("commit.block_id.hash", Box::new(|h| { h.commit.block_id.hash = tendermint::Hash::Sha256([5u8; 32]); })),
+        ("dah: first row root replaced by the second", Box::new(|h| { let mut rows = h.dah.row_roots().to_vec(); let cols = h.dah.column_roots().to_vec(); if rows.len() >= 2 && rows[0] != rows[1] { rows[0] = rows[1].clone(); } else { rows.swap(0, 1); } h.dah = DataAvailabilityHeader::new_unchecked(rows, cols); })),
+        ("dah: last column root dropped", Box::new(|h| { let rows = h.dah.row_roots().to_vec(); let mut cols = h.dah.column_roots().to_vec(); cols.pop(); h.dah = DataAvailabilityHeader::new_unchecked(rows, cols); })),
+        ("validator 0 power + 1", Box::new(|h| { let mut v = h.validator_set.validators().to_vec(); v[0].power = (v[0].power.value() + 1).try_into().unwrap(); h.validator_set = ValidatorSet::new(v.clone(), Some(v[0].clone())); })),
+        ("commit entry 0 timestamp + 1s", Box::new(|h| { if let CommitSig::BlockIdFlagCommit { timestamp, .. } = &mut h.commit.signatures[0] { *timestamp = (*timestamp + std::time::Duration::from_secs(1)).unwrap(); } })),
+    ];
+    for (what, m) in muts.iter() {
+        cases += 1;
+        let mut h = header.clone();
+        m(&mut h);
+        let r = std::panic::catch_unwind(std::panic::AssertUnwindSafe(|| h.validate().is_ok()));
+        match r { Ok(false) => {}, Ok(true) => { println!("WITNESS C01: honest header with `{what}` changed still validates"); panic!("witness"); }
+                  Err(_) => { println!("WITNESS C01/C16: validate() panicked after changing `{what}`"); panic!("witness"); } }
+    }
+    // C02: generated chains verify link by link; a header does not verify against itself, a non-adjacent older one, or a
+    // successor from another chain
+    let mut generator = ExtendedHeaderGenerator::new();
+    let chain = generator.next_many(6);
+    let mut other = ExtendedHeaderGenerator::new();
+    let foreign = other.next_many(6);
+    for i in 0..5 {
+        cases += 1;
+        if chain[i].verify(&chain[i + 1]).is_err() { println!("WITNESS C02: header {} does not verify its generated successor", i + 1); panic!("witness"); }
+        if chain[i].verify_adjacent(&chain[i + 1]).is_err() { println!("WITNESS C02: verify_adjacent rejects the generated successor of header {}", i + 1); panic!("witness"); }
+        cases += 3;
+        if chain[i].verify(&chain[i]).is_ok() { println!("WITNESS C02: header {} verifies itself as a successor", i + 1); panic!("witness"); }
+        if chain[i + 1].verify(&chain[i]).is_ok() { println!("WITNESS C02: header {} verifies its predecessor as a successor", i + 2); panic!("witness"); }
+        if chain[i].verify_adjacent(&foreign[i + 1]).is_ok() { println!("WITNESS C02: header {} accepts the height-{} header of another chain as its adjacent successor", i + 1, i + 2); panic!("witness"); }
+    }
+    cases += 2;
+    if chain[0].verify_adjacent_range(&chain[1..]).is_err() { println!("WITNESS C02: verify_adjacent_range rejects a generated chain"); panic!("witness"); }
+    let mut broken = chain[1..].to_vec(); broken.remove(2);
+    if chain[0].verify_adjacent_range(&broken).is_ok() { println!("WITNESS C02: verify_adjacent_range accepts a chain with a missing header"); panic!("witness"); }
+    println!("ENUM-OK cases={cases}");
 }
